@@ -832,6 +832,10 @@ func adjustImageSampleLevel(level ir.SampleLevel, adjust func(ir.ExpressionHandl
 // adjustImageQuery adjusts expression handles in an ExprImageQuery.
 func adjustImageQuery(k ir.ExprImageQuery, adjust func(ir.ExpressionHandle) ir.ExpressionHandle) ir.ExprImageQuery {
 	result := ir.ExprImageQuery{Image: adjust(k.Image), Query: k.Query}
+	if q, ok := k.Query.(ir.ImageQuerySize); ok && q.Level != nil {
+		lvl := adjust(*q.Level)
+		result.Query = ir.ImageQuerySize{Level: &lvl}
+	}
 	return result
 }
 
